@@ -2,10 +2,10 @@ package main
 
 import (
 	"context"
-	"io"
-	"log"
 	"errors"
 	"fmt"
+	"io"
+	"log"
 	"net"
 	"strings"
 	"sync"
@@ -73,25 +73,25 @@ func (c *fakeConn) SetWriteDeadline(t time.Time) error { return nil }
 type hAct struct{ k, a, b int } // kind, arg, flag
 
 type hThread struct {
-	kind    int // 1 serve, 2 dgram, 3 shutdown
-	status  int
-	release chan struct{}
-	conn    *fakeConn
-	cancel  context.CancelFunc
-	expired bool
-	err     error
+	kind     int // 1 serve, 2 dgram, 3 shutdown
+	status   int
+	release  chan struct{}
+	conn     *fakeConn
+	cancel   context.CancelFunc
+	expired  bool
+	err      error
 	returned int32 // set by the goroutine itself the moment Serve returns (the status field is updated later, through the event loop)
 }
 
 type sched struct {
-	srv      *radius.PacketServer
-	threads  []*hThread
-	events   chan func()
-	panicked int32
-	conns    []*fakeConn
-	nextID   int
-	reqCtx   context.Context
-	mu       sync.Mutex
+	srv            *radius.PacketServer
+	threads        []*hThread
+	events         chan func()
+	panicked       int32
+	conns          []*fakeConn
+	nextID         int
+	reqCtx         context.Context
+	mu             sync.Mutex
 	pendingHandler []chan chan struct{}
 }
 
@@ -671,8 +671,14 @@ func init() {
 		runSubScenario(c, "c07-received-before-shutdown",
 			"one P; Serve called synchronously on a listener whose 2nd ReadFrom calls Shutdown(cancelled ctx); then Shutdown(Background)",
 			"Shutdown returns nil only after every handler of a datagram received before the request has finished; no double close")
+		runSubScenario(c, "c07-shared-listener",
+			"two Serve calls on one listener, one ends with a permanent read error, then Shutdown",
+			"Shutdown closes every registered listener; every running Serve call returns ErrServerShutdown")
+		runSubScenario(c, "c07-plain-close-error",
+			"a listener whose ReadFrom fails with a plain (non net.Error) error once Shutdown has closed it",
+			"once Shutdown has been requested every running Serve call returns ErrServerShutdown")
 		c.Trivial("no-shutdown")
 		c.Flush()
-		c.RequireTags("with-shutdown", "directed", "shutdown-in-register-window", "c07-received-before-shutdown")
+		c.RequireTags("with-shutdown", "directed", "shutdown-in-register-window", "c07-received-before-shutdown", "c07-shared-listener", "c07-plain-close-error")
 	}
 }
